@@ -3,6 +3,7 @@
 package rcgw
 
 import (
+	"bytes"
 	"context"
 	"fmt"
 	"io"
@@ -12,6 +13,7 @@ import (
 	"path/filepath"
 	"sort"
 	"strings"
+	"time"
 
 	"github.com/go-kit/log"
 	"github.com/oklog/ulid/v2"
@@ -142,7 +144,7 @@ func drawDataset(x *simkit.Exec, o dataOpts) *dataset {
 			Canon: fmt.Sprintf("B%d", bi+1),
 			MinT:  int64(slot) * ds.SlotLen, MaxT: int64(slot+1) * ds.SlotLen,
 			Ext:     ds.ExtSets[x.Draw("data.extset", len(ds.ExtSets))],
-			SegSize: []int64{0, 64, 200}[x.Draw("data.segsize", 3)],
+			SegSize: []int64{1 << 20, 400, 1200}[x.Draw("data.segsize", 3)],
 		}
 		if o.allowDup && bi > 0 && x.Bool("data.dup", 1, 8) {
 			src := ds.Blocks[x.Draw("data.dupof", bi)]
@@ -285,6 +287,12 @@ func (ds *dataset) materialise(x *simkit.Exec, bkt *simbucket.Bucket) bool {
 			x.Troublef("fixture: upload block %s: %v", b.Canon, err)
 			return false
 		}
+		// block.Upload stamps the real wall clock into meta.json; the bubble's clock starts in 2000.
+		// Re-stamp with a time in the simulated past so the consistency-delay filter sees an old block.
+		if err := restampMeta(bkt, b.ID); err != nil {
+			x.Troublef("fixture: restamp meta of %s: %v", b.Canon, err)
+			return false
+		}
 	}
 	return true
 }
@@ -384,4 +392,23 @@ func (ds *dataset) readReference(x *simkit.Exec) []*refBlock {
 		out = append(out, rb)
 	}
 	return out
+}
+
+func restampMeta(bkt *simbucket.Bucket, id ulid.ULID) error {
+	ctx := context.Background()
+	name := id.String() + "/" + block.MetaFilename
+	rc, err := bkt.Inner.Get(ctx, name)
+	if err != nil {
+		return err
+	}
+	m, err := metadata.Read(rc)
+	if err != nil {
+		return err
+	}
+	m.Thanos.UploadTime = time.Unix(900000000, 0).UTC()
+	var buf bytes.Buffer
+	if err := m.Write(&buf); err != nil {
+		return err
+	}
+	return bkt.Inner.Upload(ctx, name, &buf)
 }
